@@ -53,7 +53,7 @@ pub fn refusal_probe(r: &mut crate::run::Runner, step: &Step) {
             // open / increase / reduce only (the statement's scope); a reversal's limit handling is not asserted
             let n = mul_div(*margin, *leverage, r.w.d).unwrap_or(0);
             let reversal = match r.obs.position(*vamm, &actor) {
-                Some(p) if p.dir != side.dir() => p.size == 0 || pq_u(&preq, "out_whole").map(|c| c <= n).unwrap_or(true),
+                Some(p) if p.size != 0 && p.dir != side.dir() => pq_u(&preq, "out_whole").map(|c| c <= n).unwrap_or(true),
                 _ => false,
             };
             if reversal {
